@@ -13,9 +13,9 @@ Each directory holds a change written by a sub-agent that saw only the property 
 the repository (never /verif): `patch.diff`, the agent's demonstration `demo.py` (passes on the unchanged tree,
 fails with the change), its `README.md` and `meta.json` (what was run to confirm it and which check caught it).
 Confirmed = the patch applies, the repository's 52 tests still pass with it, the demonstration passes without
-it and fails with it (`tools/seedcheck.py`).  `Cxx-agent-n` = round 1, `Cxx-agent2-n` ... `Cxx-agent8-n` = rounds 2-8
+it and fails with it (`tools/seedcheck.py`).  `Cxx-agent-n` = round 1, `Cxx-agent2-n` ... `Cxx-agent9-n` = rounds 2-9 (round 9: ten properties only, changes outside the anchored files)
 (from round 2 on the agents were told which root causes had already been used, from round 3 on they were pointed at shared
-infrastructure, process-wide state, configuration paths and unusual inputs).  6 + 14 + 29 + 29 + 21 + 19 + 23 + 21 changes were missed by
+infrastructure, process-wide state, configuration paths and unusual inputs).  6 + 14 + 29 + 29 + 21 + 19 + 23 + 21 + 16 changes were missed by
 the checks as they stood when the change was written and led to the strengthenings listed in DESIGN.md section 9; a change
 whose last column names another property's check is caught there rather than by its own property's check; `MISSED` =
 not caught by any check (the reason is in the change's meta.json, field `needs`).  `tools/seedrecheck.sh` re-runs every
